@@ -29,3 +29,6 @@
 pub mod bdd_arithmetic;
 pub mod blind_rotation;
 pub mod circuit_bootstrapping;
+
+#[cfg(feature = "verif-hooks")]
+pub mod verif_hooks;
